@@ -49,6 +49,9 @@ def _write(ip, st, recv, args, kwargs):
     s.ghost["pinfile"] = as_value("bytes", tm.Extract(dt, tm.Int(0), n))     # partial write
     yield s, Raise(I.make_exc(s, "OSError", Sym("str", tm.Fresh("oserror", STR))))
     st.ghost["pinfile"] = data
+    rec = LM.EXTERNALS.get("file.record_write")
+    if rec is not None and "nwrites" in st.ghost:
+        rec(st, recv.attrs["path"], data)         # (path, data) log of completed writes, used by C19
     yield st, as_value("int", tm.Len(dt))
 
 
